@@ -9,7 +9,7 @@ import z3
 import classes as CL
 import msym
 from common import REPO, Inconclusive, run_replay, run_replay_parallel
-from fixedlib import OPT_JSON, mk_config, opts_json, struct_of
+from fixedlib import OPT_JSON, config_via_setters, mk_config, opts_json, struct_of
 from mirsym.interp import PanicPath, PathAbort, Unsupported
 from mirsym.models import elems_of
 from mirsym.values import (Agg, Opaque, Ref, SMap, SString, SVec, Str, UNIT, bv, deep_copy, is_sym, none, simp, some)
@@ -324,9 +324,7 @@ def validate_assembly_concrete(check, terms=None, option_sets=None):
             cm = SMap("cache", [[tuple(ord(ch) for ch in k), SVec([mk_rank(prog, kinds[x[0]], [ord(ch) for ch in x[1]], x[2]) for x in v])]
                                 for k, v in cache.items()])
             ps = mk_phonetic_suggestion(prog, [], cache=cm, user_autocorrect=SMap("user_autocorrect", [], user_ac_oracle(orc, shape)))
-            cfg, _ = mk_config(prog, st, {"include_english": o["english"], "ansi": o["ansi"], "smart_quote": o["smart_quote"],
-                                          "phonetic_suggestion": True, "fixed_suggestion": False, "fixed_vowel": False, "fixed_chandra": False,
-                                          "fixed_kar": False, "fixed_old_reph": False, "fixed_numpad": False, "fixed_kar_order": False})
+            cfg = config_via_setters(prog, it, st, {"include_english": o["english"], "ansi": o["ansi"], "smart_quote": o["smart_quote"], "phonetic_suggestion": True})
             sel = SMap("selections", [])
 
             def run():
@@ -729,11 +727,20 @@ def suggest_clauses(st, it, c, res, mode):
         clauses.append(("suffix_forms_complete", z3.And(complete) if complete else True))
     # ---- C05/C08: the memo entry written for the word holds its direct candidates only (what the suffix joining of longer words relies on)
     if word is not None and len(word) > 0 and mode == "single":
+        def same_key(k1, k2):
+            return len(k1) == len(k2) and all((a is b2) or (not is_sym(a) and not is_sym(b2) and a == b2) for a, b2 in zip(k1, k2))
         ent = None
-        for k, v2 in c["cache"].entries:
-            if len(k) == len(word) and all((a is b2) or (not is_sym(a) and not is_sym(b2) and a == b2) for a, b2 in zip(k, word)):
-                ent = v2
-        planted = any(len(k) == len(word) and all(a is b2 for a, b2 in zip(k, word)) for k, _ in c["cache0"].entries)
+        planted = any(same_key(k, word) for k, _ in c["cache0"].entries)
+        fresh_entries = [(k, v2) for k, v2 in c["cache"].entries if not any(same_key(k, k0) for k0, _ in c["cache0"].entries)]
+        # the memo gains at most the word's own entry, under the word exactly as typed (two different words never share an entry)
+        if planted:
+            clauses.append(("memo_entry_is_keyed_by_the_word", len(fresh_entries) == 0))
+        else:
+            if len(fresh_entries) == 1 and len(fresh_entries[0][0]) == len(word):
+                clauses.append(("memo_entry_is_keyed_by_the_word", seq_eq(list(fresh_entries[0][0]), list(word))))
+                ent = fresh_entries[0][1]
+            else:
+                clauses.append(("memo_entry_is_keyed_by_the_word", False))
         if ent is not None and not planted:
             dk2 = orc.memo.get(("dict", key_of_elems(word)), [])
             uk2 = orc.memo.get(("user_autocorrect", key_of_elems(word)))
@@ -1033,6 +1040,97 @@ def survive_search(vs):
     return None
 
 
+def stacked_suffix_search(vs):
+    """Native confirmation that memo entries are used as direct candidates only: a word whose prefixes are themselves base+suffix is typed
+    key by key through the API (so every prefix has been the word before); the list must equal the one of a reference context whose memo
+    was planted (state hook) with the *direct* candidates of every prefix - each obtained in isolation, with an empty memo."""
+    keys = char_keys()
+    cfg = {"layout": "avro_phonetic", "database": REPO + "/data", "opts": {"phonetic_suggestion": True}}
+    words = ["amio", "amakeo", "deshero", "boigulor", "tumio", "asguloi", "kothagulor", "manushero"]
+
+    def typ(t):
+        return [{"op": "key", "key": keys[ch], "sel": 0} for ch in t]
+    # 1. direct candidates of every prefix, each in isolation
+    prefixes = sorted(set(w[:i] for w in words for i in range(1, len(w))))
+    iso = [{"steps": [{"op": "new", "config": cfg}, {"op": "set_state", "state": {"buffer": x[:-1], "cache": {}}}] + typ(x[-1]) + [{"op": "get_state"}]} for x in prefixes]
+    direct = {}
+    for x, r in zip(prefixes, run_replay_parallel(iso)):
+        st = r["results"][-1].get("state")
+        if st is None or x not in st["cache"]:
+            return None
+        direct[x] = st["cache"][x]
+    # 2. key by key through the API vs. the reference context
+    scs = []
+    for w in words:
+        scs.append({"steps": [{"op": "new", "config": cfg}] + typ(w) + [{"op": "get_state"}]})
+        planted = {w[:i]: direct[w[:i]] for i in range(1, len(w))}
+        scs.append({"steps": [{"op": "new", "config": cfg}, {"op": "set_state", "state": {"buffer": w[:-1], "cache": planted}}] + typ(w[-1])})
+    res = run_replay_parallel(scs)
+    for k, w in enumerate(words):
+        a = res[2 * k]["results"]
+        b2 = res[2 * k + 1]["results"]
+        p = [x for x in a if "panic" in x]
+        if p:
+            return scs[2 * k], p[0], "typing %r key by key panics: %s" % (w, p[0]["panic"]), None
+        la = a[-2].get("suggestion", {}).get("list")
+        lb = b2[-1].get("suggestion", {}).get("list")
+        if la != lb:
+            extra = [x for x in (la or []) if x not in (lb or [])]
+            missing = [x for x in (lb or []) if x not in (la or [])]
+            return (scs[2 * k], [a[-2], b2[-1]],
+                    "typing %r key by key offers %s; with every shorter form's direct candidates (each computed in isolation) the engine's own joining gives %s "
+                    "(not justified: %s; missing: %s)" % (w, la, lb, extra, missing), "suffix forms built from memo entries that are not direct candidates")
+    return None
+
+
+def warm_search(vs):
+    """Native confirmation of a history-dependent list: pairs of related texts (same letters in another case, one a prefix of the other,
+    wrapped or not) composed one after the other in one context - by finishing the first, or by erasing back to the common prefix -
+    against a newly created context that gets the second text only."""
+    keys = char_keys()
+    cfg = {"layout": "avro_phonetic", "database": REPO + "/data", "opts": {"phonetic_suggestion": True}}
+    texts = ["ami", "Ami", "AMI", "aMi", "am", "Am", "kal", "Kal", "KAL", "a", "A", "kotha", "kothagulo", "Kothagulo", "boi", "boigulo", "\"ami\"", "(ami", "ami.",
+             "bhalo", "Bhalo", "BHALO", "k", "K", "ke", "Ke"]
+    texts = [t for t in texts if all(ch in keys for ch in t)]
+
+    def typ(t, ctx):
+        return [{"op": "key", "ctx": ctx, "key": keys[ch], "sel": 0} for ch in t]
+
+    def core(t):
+        return "".join(ch for ch in t if ch.isalnum()).lower()
+    fresh = {t: None for t in texts}
+    res = run_replay_parallel([{"steps": [{"op": "new", "config": cfg}] + typ(t, 0)} for t in texts])
+    for t, r in zip(texts, res):
+        fresh[t] = r["results"][-1].get("suggestion")
+    scs, meta = [], []
+    for t1 in texts:
+        for t2 in texts:
+            if t1 == t2 or not (core(t1).startswith(core(t2)) or core(t2).startswith(core(t1))):
+                continue
+            scs.append({"steps": [{"op": "new", "ctx": 0, "config": cfg}] + typ(t1, 0) + [{"op": "finish", "ctx": 0}] + typ(t2, 0)})
+            meta.append((t1, t2, "finished"))
+            k = 0
+            while k < min(len(t1), len(t2)) and t1[k] == t2[k]:
+                k += 1
+            if k < len(t2):
+                scs.append({"steps": [{"op": "new", "ctx": 0, "config": cfg}] + typ(t1, 0) + [{"op": "backspace", "ctx": 0}] * (len(t1) - k) + typ(t2[k:], 0)})
+                meta.append((t1, t2, "erased back to %r" % t2[:k]))
+    out = run_replay_parallel(scs)
+    for (t1, t2, how), sc, r in zip(meta, scs, out):
+        rr = r["results"]
+        p = [x for x in rr if "panic" in x]
+        if p:
+            return sc, p[0], "%r %s, then %r: panics: %s" % (t1, how, t2, p[0]["panic"]), None
+        got = rr[-1].get("suggestion")
+        want = fresh[t2]
+        if got is None or want is None:
+            continue
+        if got.get("list") != want.get("list") or (how == "finished" and got.get("sel") != want.get("sel")):
+            return (sc, [rr[-1], want], "one context composed %r (%s) and then %r: it offers %s (preselected %s); a newly created context offers %s (preselected %s) for the same text" % (
+                t1, how, t2, got.get("list"), got.get("sel"), want.get("list"), want.get("sel")), "suggestions depend on what the context composed before")
+    return None
+
+
 def autocorrect_search(vs):
     """Re-find 'the auto-correct entry is not first' natively with a user auto-correct file (identity, overriding and plain entries)."""
     keys = char_keys()
@@ -1153,7 +1251,9 @@ def obl_suffix(check, conv_table, thorough=False, budget_s=None):
     check.bounds["assembly_suffix"] = dict(word="3%s symbolic letters/digits: every split point, suffix known or not" % (" or 4" if thorough else ""),
                                            memo="every proper prefix holds one candidate (dictionary word or auto-correct entry) of 1 symbolic Bengali-block code point",
                                            suffix_value="1 symbolic Bengali-block code point", wrappers=["W", "\"W\""])
-    run_suggest_obligation(check, "assembly_suffix", shapes, ["cover:suffix_join"], confirmers={"suffix_forms_complete": suffix_search}, budget_s=budget_s)
+    run_suggest_obligation(check, "assembly_suffix", shapes, ["cover:suffix_join"], budget_s=budget_s,
+                           confirmers={"suffix_forms_complete": suffix_search, "memo_entry_holds_direct_candidates_only": stacked_suffix_search,
+                                       "memo_entry_is_keyed_by_the_word": warm_search})
 
 
 def emoji_search(vs):
@@ -1292,9 +1392,16 @@ def obl_warm(check, conv_table, thorough=False, budget_s=None):
     shapes = base_shapes([("", "")], [1, 2], conv_table, **kw)
     shapes += base_shapes([("", "")], [3], conv_table, **dict(kw, selections=thorough, autocorrect=thorough, user_autocorrect=True))
     shapes += base_shapes([("\"", "")], [1], conv_table, **dict(kw, fixed={"ansi": False, "include_english": False}))
+    # single runs: what the call leaves in the memo (one entry, under the word exactly as typed, holding its direct candidates)
+    single = dict(kw, mode="single", autocorrect=True, user_autocorrect=True, suffixes=True, selections=False)
+    shapes += base_shapes([("", ""), ("\"", "\"")], [1, 2], conv_table, **single)
     check.bounds["memo_transparency"] = dict(word="1-3 symbolic letters/digits", first_run="memo holds the proper prefixes only, scratch buffers arbitrary",
                                              second_run="same object afterwards (memo now holds the word itself, scratch holds the previous answer)")
-    run_suggest_obligation(check, "memo_transparency", shapes, ["cover:warm"], budget_s=budget_s)
+    # C08's clauses ride along in the single shapes; they are not C05's
+    run_suggest_obligation(check, "memo_transparency", shapes, ["cover:warm"], budget_s=budget_s,
+                           confirmers={"memo_entry_holds_direct_candidates_only": stacked_suffix_search, "warm_context_gives_the_same_list": warm_search,
+                                       "memo_entry_is_keyed_by_the_word": warm_search,
+                                       "warm_context_gives_the_same_preselection": warm_search})
 
 
 def obl_learn(check, conv_table, thorough=False, budget_s=None):
@@ -2058,6 +2165,37 @@ def make_regex_hygiene(shape):
     return build, on_path
 
 
+def regex_meta_search():
+    """Native: a character the regex engine treats specially, typed inside a word through a synthetic layout, must not act as a pattern:
+    every dictionary candidate begins with the typed word once punctuation is ignored (and nothing panics)."""
+    metas = ".*+?|()[]{}^$\\-"
+    words = [("ক", "ল"), ("আ", "ম"), ("ব", "ই")]
+    scs, meta = [], []
+    for m in metas:
+        for a, b2 in words:
+            for kar in (False, True):
+                lay = {"Key_a_Normal": a, "Key_b_Normal": m, "Key_c_Normal": b2}
+                cfg = {"layout_json": lay, "database": REPO + "/data", "opts": {"fixed_suggestion": True, "kar": kar}}
+                scs.append({"steps": [{"op": "new", "config": cfg}, {"op": "key", "key": 0xA096}, {"op": "key", "key": 0xA097}, {"op": "key", "key": 0xA098}]})
+                meta.append((m, a, b2, kar))
+    res = run_replay_parallel(scs)
+    for (m, a, b2, kar), sc, r in zip(meta, scs, res):
+        rr = r["results"]
+        p = [x for x in rr if "panic" in x]
+        if p:
+            return sc, p[0], "fixed mode, suggestions on: composing %r panics: %s" % (a + m + b2, p[0]["panic"])
+        lst = rr[-1].get("suggestion", {}).get("list", [])
+        want = a + b2
+        for cand in lst[1:]:
+            plain = cand.replace("\u200c", "").replace("\u200d", "")
+            if not any(0x0980 <= ord(ch) <= 0x09FF for ch in plain):
+                continue
+            if not plain.startswith(want):
+                return sc, rr[-1], ("fixed mode, suggestions on%s: composing %r (the middle character typed inside the word) offers %r, which does not begin with %r - "
+                                    "the character acted as a pattern; list %s" % (", traditional joining" if kar else "", a + m + b2, cand, want, lst))
+    return None
+
+
 def obl_regex_hygiene(check, max_n, budget_s=None):
     shapes = [dict(n=n) for n in range(1, max_n + 1)]
     check.bounds["regex_hygiene"] = dict(word="1..%d code points, each any Unicode scalar value" % max_n, traditional_joining="symbolic")
@@ -2083,6 +2221,8 @@ def obl_regex_hygiene(check, max_n, budget_s=None):
         if "panic" in r:
             found = (sc, r, "fixed mode, suggestions on: composing %r panics: %s" % (w, r["panic"]))
             break
+    if found is None:
+        found = regex_meta_search()
     if found is None:
         check.obligation("regex_hygiene", "mirsym", "inconclusive", "counterexample did not reproduce natively: %s -> %s" % (
             json.dumps(vio[0]["inputs"], ensure_ascii=False), json.dumps(vio[0]["predicted"], ensure_ascii=False)[:300]))
@@ -2299,6 +2439,89 @@ def obl_fixed_search(check, thorough=False, budget_s=None):
 
 
 # ------------------------------------------------------------------------- C01/C10: empty strings in stored / user data
+
+def panic_search(vs):
+    """Re-find a panic of the phonetic candidate assembly natively through in-contract histories: learn a choice for a word (every index,
+    the raw English candidate included), then type the word again inside every wrapper (doubled punctuation too), then erase it."""
+    keys = char_keys()
+    words = ["a", "ami", "k", "7"]
+    wrappers = list(WRAPPERS_QUICK) + [("", ".."), ("", "!!"), ("\"", ""), ("((", "))"), ("", ":`"), ("`", "")]
+    scs, meta = [], []
+    for eng in (True, False):
+        for sq in (True, False):
+            cfg = {"layout": "avro_phonetic", "database": REPO + "/data", "opts": {"phonetic_suggestion": True, "english": eng, "smart_quote": sq}}
+            for w in words:
+                for idx in (0, 1, 2, "last"):
+                    steps = [{"op": "new", "config": cfg}] + [{"op": "key", "key": keys[ch], "sel": 0} for ch in w]
+                    steps.append({"op": "commit", "index": idx if idx != "last" else -1})
+                    for pre, trail in wrappers:
+                        t = pre + w + trail
+                        if not all(ch in keys for ch in t):
+                            continue
+                        steps += [{"op": "key", "key": keys[ch], "sel": 0} for ch in t]
+                        steps += [{"op": "backspace"}] * (len(t) + 1)
+                    scs.append({"steps": steps})
+                    meta.append((cfg, w, idx))
+    # the index 'last' needs the list length: resolve by a first pass
+    first = run_replay_parallel([{"steps": sc["steps"][:1 + len(m[1])]} for sc, m in zip(scs, meta)])
+    keep_s, keep_m = [], []
+    for sc, m, r in zip(scs, meta, first):
+        last = r["results"][-1]
+        n = len(last.get("suggestion", {}).get("list", []))
+        ci = 1 + len(m[1])
+        idx = sc["steps"][ci]["index"]
+        if idx == -1:
+            idx = n - 1
+        if n == 0 or idx >= n or idx < 0:
+            continue
+        sc["steps"][ci] = {"op": "commit", "index": idx}
+        keep_s.append(sc)
+        keep_m.append((m[0], m[1], idx, last["suggestion"]["list"][idx]))
+    out = run_replay_parallel(keep_s)
+    for (cfg, w, idx, cand), sc, r in zip(keep_m, keep_s, out):
+        rr = r["results"]
+        for k, x in enumerate(rr):
+            if "panic" in x:
+                typed = "".join(next((ch for ch, c in keys.items() if c == stp.get("key")), "<bs>") if stp["op"] != "commit" else "<commit %d>" % stp["index"]
+                                for stp in sc["steps"][1:k + 1])
+                typed = typed[-40:]
+                short = {"steps": sc["steps"][:k + 1]}
+                return short, x, ("options %s: typed %r, committed candidate %d (%r); later, at the end of ...%s the engine panics: %s" % (
+                    json.dumps(cfg["opts"]), w, idx, cand, typed, x["panic"])), "assembly panics after a learned choice"
+    return None
+
+
+def obl_assembly_no_panic(check, conv_table, thorough=False, budget_s=None):
+    """C01 over the phonetic candidate assembly: `suggest` with every data source an oracle, a learned entry for the word present or
+    absent, every wrapper: no panic path."""
+    kw = dict(mode="single", dict_max=1, dist_mode="fixed", emoji_count=1, suffixes=False, selections=True, distinct=False)
+    shapes = base_shapes(WRAPPERS_QUICK + [("", "..")], [1, 2] if thorough else [1], conv_table, **kw)
+    # suffix split points: one split point with a learned entry, two without (the learned-entry walk multiplies the paths of every split)
+    shapes += base_shapes([("", ""), ("", ".")], [2], conv_table, **dict(kw, suffixes=True, emoji_names=False, emoticons=False))
+    shapes += base_shapes([("", "")], [3], conv_table, **dict(kw, suffixes=True, emoji_names=False, emoticons=False, selections=thorough, autocorrect=False, user_autocorrect=False))
+    shapes += special_term_shapes(SPECIAL_TERMS[:6] if not thorough else SPECIAL_TERMS, **dict(kw, selections=False))
+    check.bounds["assembly_no_panic"] = dict(word="1%s symbolic letters/digits; 3 with suffix split points" % ("-2" if thorough else ""),
+                                             wrappers=[s["pre"] + "W" + s["trail"] for s in shapes][:14],
+                                             data="auto-correct entries, 0-1 dictionary word, emoticon / emoji name, learned entry for the word: each present or absent",
+                                             options="English, ANSI, smart quotes symbolic")
+    records, errors, summ = msym.run_shapes(check, "assembly_no_panic", shapes, make_suggest, budget_s=budget_s)
+    vio = [r for r in records if r["kind"] == "violation" and r["clause"] == "no_panic"]
+    name = "assembly_no_panic"
+    if errors:
+        check.obligation(name, "mirsym", "inconclusive", "executor gave up: " + "; ".join(sorted(set(errors))[:3]))
+        return
+    if not vio:
+        check.obligation(name, "mirsym", "held", "%d paths, no panic path" % summ["paths"])
+        return
+    found = panic_search(vio)
+    if found is None:
+        check.obligation(name, "mirsym", "inconclusive", "panic path under the data oracles was not re-found natively: %s" % describe_suggest(vio[0])[:500])
+        return
+    sc, obs, what, role = found
+    check.stats["traces_validated"] += 1
+    st = check.finding(role, what, dict(scenario=sc, observed=obs, solver_counterexample=vio[0]["inputs"]))
+    check.obligation(name, "mirsym", st, "%d paths; %d panic models" % (summ["paths"], len(vio)))
+
 
 def obl_empty_strings(check, conv_table, budget_s=None):
     """Candidate assembly with stored strings allowed to be empty (a learned entry, a user auto-correct entry or a memo candidate
